@@ -486,6 +486,9 @@ impl HostCtx {
                 format!("ok streams={} udp={} tcpb={}", c.tcp_streams, c.udp_binds, c.tcp_binds)
             }
             "clock" => {
+                if !turmoil::in_simulation() {
+                    return "err in_simulation-false-inside-host-code".into();
+                }
                 let e = turmoil::elapsed();
                 let se = turmoil::sim_elapsed().unwrap();
                 let ep = turmoil::since_epoch().unwrap();
@@ -630,6 +633,11 @@ impl HostCtx {
             }
             "countof" => {
                 let c = turmoil::verif::host_counts(ip(t[1]));
+                // the public per-host counter must agree with the table
+                let api = turmoil::established_tcp_stream_count_on(ip(t[1]));
+                if api != c.tcp_streams {
+                    return format!("ok streams={api}!={}", c.tcp_streams);
+                }
                 format!("ok streams={} udp={} tcpb={}", c.tcp_streams, c.udp_binds, c.tcp_binds)
             }
             "net_partition" => { turmoil::partition(ip(t[1]), ip(t[2])); "ok".into() }
@@ -1115,11 +1123,22 @@ impl<'a> Case<'a> {
                 let v: Vec<String> = ips.iter().map(|i| ipnum(*i).to_string()).collect();
                 format!("ok {}", if v.is_empty() { "-".to_string() } else { v.join(",") })
             }
-            "simclock" => format!(
-                "ok elapsed={} epoch={}",
-                self.sim.elapsed().as_nanos(),
-                self.sim.since_epoch().as_nanos()
-            ),
+            "simclock" => {
+                if turmoil::in_simulation() {
+                    "err in_simulation-true-on-the-controller-thread".into()
+                } else {
+                    format!("ok elapsed={} epoch={}", self.sim.elapsed().as_nanos(), self.sim.since_epoch().as_nanos())
+                }
+            }
+            "isrunning" => {
+                // Sim::is_host_running
+                format!("ok {}", self.sim.is_host_running(ip(t[1])))
+            }
+            "setcurve" => {
+                // shape of the latency distribution only: the range is unchanged
+                self.sim.set_message_latency_curve(t[1].parse::<f64>().unwrap());
+                "ok".into()
+            }
             other => format!("err unknownctl:{other}"),
         };
         log(format!("OBS {obs}"));
